@@ -337,6 +337,8 @@ class Reflector:
                 return "L"
             if last in self.r.coord_funcs:
                 return "C"
+            if last == "next" and e.args and isinstance(e.args[0], (ast.ListComp, ast.GeneratorExp)):
+                return self.ty(e.args[0].elt)              # first element of a generated sequence (default: None = no position)
             if last in ("max", "min"):
                 ts = [self.ty(a) for a in e.args]
                 if len(e.args) == 1 and isinstance(e.args[0], (ast.ListComp, ast.GeneratorExp)):
@@ -554,6 +556,14 @@ class Reflector:
             hi = ast.BinOp(left=e.args[1], op=ast.Sub(), right=ast.Constant(value=1))
             a, b = (hi, lo) if self.mirror else (lo, hi)
             return "crange(C:%s, C:%s)" % (self.pos_coord(a), self.pos_coord(b))
+        # sorting a collection of coordinates: ascending order of the mirrored coordinates is descending order of the original ones
+        if last == "sorted" and e.args and self._coord_collection(e.args[0]):
+            desc = any(k.arg == "reverse" and isinstance(k.value, ast.Constant) and k.value.value is True for k in e.keywords)
+            if any(k.arg not in ("reverse",) or not isinstance(k.value, ast.Constant) for k in e.keywords) or len(e.args) != 1:
+                raise Unsupported("sorted() of coordinates with a key / computed direction")
+            if self.mirror:
+                desc = not desc
+            return "sorted_coords(%s, %s)" % (self.atom(e.args[0]), "outermost-right first" if desc else "outermost-left first")
         # sequence growth at the far end / near end
         if last == "append" and isinstance(e.func, ast.Attribute) and self.ty(e.func.value) == "S" and len(e.args) == 1:
             return "%s(%s, %s)" % ("seq_add_first" if self.mirror else "seq_add_last", recv, self.expr(e.args[0]))
@@ -590,13 +600,17 @@ class Reflector:
                 args.append(self.fmt(f))
             else:
                 args.append(self.expr(a))
-        args += ["%s=%s" % (k.arg, self.expr(k.value)) for k in e.keywords]
+        args += ["%s=%s" % ((self.r.extra_dual.get(k.arg, k.arg) if self.mirror else k.arg), self.expr(k.value)) for k in e.keywords]
         if last in ("max", "min", "abs"):
             if last == "abs":
                 f, _ = self.norm_sign(self.lin(e.args[0]))
                 return "abs(%s)" % self.fmt(f)
             args = sorted(args)
         return "%s%s(%s)" % (recv + "." if recv else "", name, ", ".join(args))
+
+    def _coord_collection(self, e):
+        bn = e.id if isinstance(e, ast.Name) else (e.attr if isinstance(e, ast.Attribute) else None)
+        return bn is not None and (bn in self.r.coord_iterables or self.dn(bn) in self.r.coord_iterables)
 
     def pos_coord(self, e):
         """Canonical text of a C-typed expression in positive dual form (i.e. of -rho(e))."""
@@ -610,6 +624,8 @@ class Reflector:
 
     def expr(self, e):
         """Canonical text of a value expression (arithmetic -> linear form)."""
+        if isinstance(e, ast.Constant) and e.value is None:
+            return "None"                       # 'no position': the same on both strands
         t = self.ty(e)
         if isinstance(e, (ast.BinOp, ast.UnaryOp)) or (t == "C" and not isinstance(e, (ast.Tuple, ast.List))):
             if t == "C":
@@ -793,7 +809,7 @@ class Reflector:
         if tt == "S" and isinstance(v, ast.BinOp) and isinstance(v.op, ast.Add) and isinstance(v.left, ast.List) and len(v.left.elts) == 1 \
                 and src(v.right) == src(t):
             return "%s(%s, %s)" % ("seq_add_last" if self.mirror else "seq_add_first", self.atom(t), self.expr(v.left.elts[0]))
-        if tt == "C":
+        if tt == "C" and not (isinstance(v, ast.Constant) and v.value is None):
             return "%s := C:%s" % (self.atom(t), self.pos_coord(v))
         return "%s := %s" % (self.atom(t), self.expr(v))
 
